@@ -25,6 +25,7 @@ OBJ_FAMS = ['OO', 'OI', 'OL', 'OU', 'OQ']
 
 def must_see(tier):
     return {'sweep-ghostified:between': 300, 'c:sweep-ghostified:in-call': 100,
+            'py:sweep-ghostified:in-call:leaves-only': 100,
             'c:reload-inside-call': 20, 'pin-checks': 5000,
             'failing-call:TypeError': 20, 'failing-call:KeyError': 20,
             'failing-call:ValueError': 5, 'failing-call:IndexError': 1}
@@ -45,8 +46,14 @@ def plan(tier, seed):
                           seed=seed, tier=tier, variant='mon',
                           timeout=900 if q else 3000))
     specs.append(dict(label='incall-OO-py', family='OO', impl='py',
-                      mode='in-call', histories=4 if q else 20, seed=seed,
+                      mode='in-call', histories=12 if q else 60, seed=seed,
                       tier=tier, variant='mon', timeout=900))
+    if not q:
+        for fam in OBJ_FAMS[1:]:
+            specs.append(dict(label='incall-%s-py' % fam, family=fam,
+                              impl='py', mode='in-call', histories=30,
+                              seed=seed, tier=tier, variant='mon',
+                              timeout=1500))
     # the memory half: a node used without being pinned has its arrays freed
     # under the comparison -> use-after-free under ASan
     for fam in (['OO', 'OI'] if q else OBJ_FAMS):
@@ -70,11 +77,21 @@ def ghost_count(conn):
     return sum(1 for o in conn.cached_objects() if o._p_state == GHOST)
 
 
-def sweep(conn, rng):
+def _is_leaf(o):
+    n = type(o).__name__.replace('Py', '')
+    return n.endswith(('Bucket', 'Set')) and not n.endswith('TreeSet')
+
+
+def sweep(conn, rng, leaves_only=False):
     """One cache sweep. -> number of nodes that became ghosts."""
     before = ghost_count(conn)
     r = rng.random()
-    if r < 0.5:
+    if leaves_only:
+        objs = [o for o in conn.cached_objects() if _is_leaf(o)]
+        rng.shuffle(objs)
+        for o in objs[:rng.randint(1, max(1, len(objs)))]:
+            o._p_deactivate()
+    elif r < 0.5:
         conn.cache.minimize()
     else:
         objs = conn.cached_objects()
@@ -370,7 +387,11 @@ def run_history(fam, kind, impl, mode, rng, rec, h):
                 'tree-damaged', 'contents-differ-from-uncached-twin',
                 'contents-raised', 'result-differs-from-uncached-twin'):
             d['finding'] = 'F34'
-        elif impl == 'py' and mode == 'in-call':
+        elif impl == 'py' and mode == 'in-call' and not leaves_only:
+            # F16 needs an INTERIOR node ghostified under the running call;
+            # histories whose in-call sweeps touch leaves only must hold
+            # (88 000 calls / 22 000 such sweeps on the pinned tree: none
+            # fails), so nothing is excused there
             d['finding'] = 'F16'
         rec.violation(mech, **d)
 
@@ -399,9 +420,13 @@ def run_history(fam, kind, impl, mode, rng, rec, h):
         return True
 
 
+    # in-call mode: every other history sweeps leaves only
+    leaves_only = mode == 'in-call' and h % 2 == 1
+    desc['leaves_only'] = leaves_only
+
     def in_call_sweep():
         if rng.random() < 0.25:
-            k = sweep(conn, rng)
+            k = sweep(conn, rng, leaves_only)
             if k > 0:
                 state['ghosted'] += k
 
@@ -488,6 +513,8 @@ def run_history(fam, kind, impl, mode, rng, rec, h):
         rec.evaluations += 1
         if state['ghosted']:
             rec.ev(impl + ':sweep-ghostified:in-call')
+            if leaves_only:
+                rec.ev(impl + ':sweep-ghostified:in-call:leaves-only')
             rec.ev(impl + ':in-call-sweep:' + op)
             if conn.loads > loads0:
                 rec.ev(impl + ':reload-inside-call')
